@@ -90,6 +90,15 @@ var scripts = map[string]string{
 	"lege": "a <= b && a >= b",
 }
 
+// the same uses with both operands read out of containers (interface-typed slice elements), as values mostly are in real scripts
+var scriptsElem = map[string]string{
+	"eq":   "la[0] == lb[0]",
+	"ne":   "la[0] != lb[0]",
+	"inn":  "la[0] in lb",
+	"sw":   "func() { switch la[0] { case lb[0]: return true }; return false }()",
+	"lege": "la[0] <= lb[0] && la[0] >= lb[0]",
+}
+
 func eval(a, b interface{}, src string) (res bool, status string) {
 	defer func() {
 		if r := recover(); r != nil {
@@ -99,6 +108,8 @@ func eval(a, b interface{}, src string) (res bool, status string) {
 	e := env.NewEnv()
 	e.Define("a", a)
 	e.Define("b", b)
+	e.Define("la", []interface{}{a})
+	e.Define("lb", []interface{}{b})
 	v, err := vm.Execute(e, nil, src)
 	if err != nil {
 		return false, "error: " + err.Error()
@@ -137,27 +148,29 @@ func main() {
 	for i := range pool {
 		for j := i; j < len(pool); j++ {
 			a, b := pool[i].goValue(), pool[j].goValue()
-			o := map[string]interface{}{"i": i + 1, "j": j + 1, "problems": []string{}}
-			var problems []string
-			for k, src := range scripts {
-				r, st := eval(a, b, src)
-				if st != "" {
-					problems = append(problems, k+": "+st)
+			for prov, set := range map[string]map[string]string{"plain": scripts, "elem": scriptsElem} {
+				o := map[string]interface{}{"i": i + 1, "j": j + 1, "prov": prov, "problems": []string{}}
+				var problems []string
+				for k, src := range set {
+					r, st := eval(a, b, src)
+					if st != "" {
+						problems = append(problems, k+": "+st)
+					}
+					o[k] = r
+					r2, st2 := eval(b, a, src)
+					if st2 != "" {
+						problems = append(problems, "r"+k+": "+st2)
+					}
+					o["r"+k] = r2
 				}
-				o[k] = r
-				r2, st2 := eval(b, a, src)
-				if st2 != "" {
-					problems = append(problems, "r"+k+": "+st2)
+				x, okx := den(pool[i])
+				y, oky := den(pool[j])
+				o["feq"] = okx && oky && x == y
+				if problems != nil {
+					o["problems"] = problems
 				}
-				o["r"+k] = r2
+				enc.Encode(o)
 			}
-			x, okx := den(pool[i])
-			y, oky := den(pool[j])
-			o["feq"] = okx && oky && x == y
-			if problems != nil {
-				o["problems"] = problems
-			}
-			enc.Encode(o)
 		}
 	}
 }
